@@ -1,7 +1,10 @@
 // SPDX-License-Identifier: Apache-2.0
 // © James Ross Ω FLYING•ROBOTS <https://github.com/flyingrobots>
 //! Minimal in-memory graph store used by the rewrite executor and tests.
+#[cfg(not(feature = "echo_verif_flat"))]
 use std::collections::BTreeMap;
+#[cfg(feature = "echo_verif_flat")]
+use crate::verif_flat::BTreeMap;
 
 use thiserror::Error;
 
